@@ -144,6 +144,36 @@ def check(repo, rep):
         rate = P.role('sampling_rate', P.same(src)) if src else P.ANY
         skipping = any((g := norm_cmp(c[0], c[1])) and g[0] == '>' and g[1] == ('p', 'skip') and g[2] == ('c', 0) for c in l.conds)
         limited = any((g := norm_cmp(c[0], c[1])) and g[0] == '>=' and g[1] == ('p', 'max_read') and g[2] == ('c', 0) for c in l.conds)
+        # which values of max_read take this path: None, a negative one, zero and a positive one are taken through the path's tests on it
+        from ..semantic import evaluator as _ev18
+        from ..termeval import NotEvaluable as _NE18
+        takers = []
+        undecided_mr = False
+        for mr_ in (None, -1.0, 0, 2.5):
+            ok_ = True
+            for ct, tr, _ in l.conds:
+                if not any(x == ('p', 'max_read') for x in walk(ct)):
+                    continue
+                try:
+                    e_ = _ev18({('p', 'max_read'): mr_})
+                    got_ = e_.ev(ct)
+                except _NE18:
+                    continue                       # e.g. None < 0 after an `is None` test that already excluded the value
+                if e_.leaves:
+                    continue                       # a test on something computed from max_read (the result of the read), not on max_read itself
+                if bool(got_) != tr:
+                    ok_ = False
+                    break
+            if ok_:
+                takers.append(mr_)
+        if takers and not undecided_mr:
+            if set(takers) <= {0, 2.5}:
+                limited = True
+            elif set(takers) <= {None, -1.0}:
+                limited = False
+            else:
+                rep.unknown('_read_offline: a path is taken both with and without a max_read limit (%s)' % takers)
+                continue
         exp = (1 if skipping else 0) + 1
         rep.ob('load(): one skip read (only when skip > 0) then exactly one data read', len(reads) == exp, W(l.node), '_read_offline:reads[skip=%s]' % skipping, '%d reads on the path' % len(reads))
         if len(reads) != exp:
@@ -157,7 +187,8 @@ def check(repo, rep):
             rep.ob('max_read is converted to round(max_read * rate) samples', a is not None and P.call('round', P.prod(P.param('max_read'), rate))(a), cx.where('core', reads[-1][3]), '_read_offline:max-samples',
                    'reads %s' % (show(a)[:100] if a else None), sample=dict(step='data', samples=show(a)[:80] if a else None))
         else:
-            isnone = a == ('c', None) or (a == ('p', 'max_read') and any((g := norm_cmp(c[0], c[1])) and g[0] == 'is' and g[1] == ('p', 'max_read') and g[2] == ('c', None) for c in l.conds))
+            isnone = a == ('c', None) or (a == ('p', 'max_read') and any((g := norm_cmp(c[0], c[1])) and g[0] == 'is' and g[1] == ('p', 'max_read') and g[2] == ('c', None) for c in l.conds)) \
+                or (a == ('p', 'max_read') and takers and not undecided_mr and set(takers) <= {None, -1.0})        # read(None) / read(negative) both mean: everything
             rep.ob('without max_read (None or negative) everything that remains is read', isnone, cx.where('core', reads[-1][3]), '_read_offline:read-all', 'reads %s' % (show(a)[:60] if a else None))
         v = l.value
         R_ = reads[-1][1]
@@ -197,6 +228,8 @@ def check(repo, rep):
             v = l.value
             ok = v[0] == 'call' and term_name(v[1]).endswith('to_array') and v[2][:1] == (('attr', ('self',), 'data'),)
             rep.ob('numpy() decodes the region\'s own bytes with to_array (C07: shape (channels, samples), signed integers)', ok, W(l.node), 'AudioRegion.numpy', 'returns %s' % show(v)[:100])
+    from .c11 import check_no_memoised_io
+    check_no_memoised_io(cx, rep)          # load after save of the same name must see the new file
     from .c09 import check_guess_format
     check_guess_format(cx, rep)          # savers and loaders dispatch on the normalised format name
     check_roles(cx, rep, lambda p: p['func'] in ('AudioRegion.save', 'to_file', '_save_wave', '_save_with_pydub', '_load_wave', '_load_raw', 'from_file', 'WaveAudioSource.__init__', '_read_offline', '_read_chunks_online',
